@@ -208,6 +208,29 @@ def _srb_cases(rng, n):
     return out
 
 
+def _srb_pairs(rng, n):
+    """two or three reports made in a row by one thread: about the SAME bundle identity (source, creation timestamp) with one other field
+    changed - 'status time requested' on / off, another report-to, another lifetime - or about the same bundle for another status item"""
+    out = []
+    for i in range(n):
+        tf = i % 2 == 1
+        b = _subject(rng, tf)
+        b2 = dict(p=dict(b["p"]), cs=b["cs"])
+        k = i % 4
+        if k in (0, 1):
+            b2["p"]["flags"] ^= 0x40
+        elif k == 2:
+            b2["p"]["rpt"] = genb.rnd_eid(rng, allow_none=False)
+        else:
+            b2["p"]["life"] = rnd_u64(rng)
+        src, clock, crc = genb.rnd_eid(rng), rnd_clock(rng), rng.randrange(3)
+        lines = [_srb_line(clock, crc, i % 4, rnd_reason(rng), src, b), _srb_line(clock, crc, (i + (1 if k == 3 else 0)) % 4, rnd_reason(rng), src, b2)]
+        if i % 5 == 0:
+            lines.append(_srb_line(clock, crc, i % 4, rnd_reason(rng), src, b))
+        out.append("PAIR " + " || ".join(lines))
+    return out
+
+
 def _srb_outside(rng, n):
     """agreement only: inputs outside the property's domain"""
     out = []
@@ -303,6 +326,7 @@ def cases(rng, tier):
     n_srb = 1200 if tier == "quick" else 100000
     out += _srb_cases(rng, n_srb)
     out += _srb_outside(rng, n_srb // 8)
+    out += _srb_pairs(rng, n_srb // 8)
     return out
 
 
